@@ -7,7 +7,10 @@ scl::Fifo and the extracted machine on the same schedules and diff cycle-accurat
 Any broken obligation / tie difference -> search mode: plain-queue oracle (this file,
 independent of the Coq model) over the real implementation's traces.
 TransactionalFifo (single clock): second Coq machine (FifoTxDefs.v), diffed the same way.
-FifoArray / strm::fifo: differential against python oracles only.
+strm::fifo (every FifoLatency option, 0 = fall-through, depths up to 512): third Coq machine (FifoStrmDefs.v),
+diffed the same way; the side condition of its theorem (fall-through needs inner latency 1) is checked against
+the latency the implementation selects; table of all selected latencies (request x depth x device).
+FifoArray: differential against a python oracle only.
 """
 import sys, os
 sys.path.insert(0, os.path.join(os.path.dirname(os.path.abspath(__file__)), "..", "lib"))
